@@ -1,0 +1,43 @@
+//go:build verif
+
+package test
+
+// Contracts for the deductive verifier in /verif (govc). Comments only; compiled solely with -tags verif.
+
+// ---------------------------------------------------------------------------------------------
+// Reuse of test results (C11): the local functions of test() that decide it.
+//
+//@ assume func verifyHash
+//@   pure
+//@ assume func retrieveFromCache
+//@ assume func moveOutputFile
+//
+// needToRun: a stored result is reused ONLY IF no rerun is forced and either the target was not rebuilt, its
+// result file exists and carries the current runtime hash (and so does the coverage file when coverage is
+// needed), or the cache was consulted with that hash.
+//@ func test.needToRun
+//@   requires state != nil && target != nil
+//@   opt nopanic=off
+//@   ensures forced [C11]: old(state.ForceRerun) ==> result
+//@   ensures reuse_only_if_valid [C11]: !result ==> !old(state.ForceRerun) && \
+//@      (old((target.State() == core.Unchanged || target.State() == core.Reused) && core.PathExists(target.TestResultsFile()) && \
+//@        verifyHash(state, target.TestResultsFile(), hash) && (needCoverage ==> verifyHash(state, target.CoverageFile(), hash))) || \
+//@       called("retrieveFromCache"))
+//@   callsite retrieveFromCache by_current_hash [C11]: arg_hash == hash && arg_target == target
+//
+// cacheOutputFiles: results are stored as reusable ONLY IF no test arguments were given and no case failed;
+// the store uses the current runtime hash.
+//@ func test.cacheOutputFiles
+//@   requires state != nil && target != nil && results != nil
+//@   opt nopanic=off
+//@   ensures never_cache_failures [C11]: result ==> old(len(state.TestArgs) == 0 && !(results.Failures() > 0))
+//@   callsite moveOutputFile only_passing [C11]: old(len(state.TestArgs) == 0 && !(results.Failures() > 0)) && arg_hash == hash
+//@   callsite (Cache).Store only_passing [C11]: old(len(state.TestArgs) == 0 && !(results.Failures() > 0)) && arg_key == hash && arg_target == target
+//
+// test(): results are handed to cacheOutputFiles only when every case succeeded or was skipped.
+//@ func test
+//@   requires state != nil && target != nil && target.Test != nil
+//@   opt nopanic=off
+//@   opt precall=off
+//@   opt panics=allowed
+//@   callsite cacheOutputFiles only_when_all_succeeded [C11]: target.Test.Results.TestCases.AllSucceeded()
